@@ -33,7 +33,8 @@ namespace GeographicLib {
       y0 = y,
       z0 = z,
       mul = 1;
-    while (Q >= mul * fabs(An)) {
+    // (the trip counter only matters for infinite / overflowing arguments, where the test never becomes false)
+    for (int trip = 0; trip < 64 && Q >= mul * fabs(An); ++trip) {
       // Max 6 trips
       real lam = sqrt(x0)*sqrt(y0) + sqrt(y0)*sqrt(z0) + sqrt(z0)*sqrt(x0);
       An = (An + lam)/4;
@@ -64,7 +65,7 @@ namespace GeographicLib {
       real(2.7) * sqrt((numeric_limits<real>::epsilon() * real(0.01)));
     real xn = sqrt(x), yn = sqrt(y);
     if (xn < yn) swap(xn, yn);
-    while (fabs(xn-yn) > tolRG0 * xn) {
+    for (int trip = 0; trip < 64 && fabs(xn-yn) > tolRG0 * xn; ++trip) {
       // Max 4 trips
       real t = (xn + yn) /2;
       yn = sqrt(xn * yn);
@@ -106,13 +107,13 @@ namespace GeographicLib {
     static const real tolRG0 =
       real(2.7) * sqrt((numeric_limits<real>::epsilon() * real(0.01)));
     real
-      x0 = sqrt(fmax(x, y)),
-      y0 = sqrt(fmin(x, y)),
+      x0 = sqrt(x < y ? y : x),    // not fmax/fmin: they would discard a NaN
+      y0 = sqrt(x < y ? x : y),
       xn = x0,
       yn = y0,
       s = 0,
       mul = real(0.25);
-    while (fabs(xn-yn) > tolRG0 * xn) {
+    for (int trip = 0; trip < 64 && fabs(xn-yn) > tolRG0 * xn; ++trip) {
       // Max 4 trips
       real t = (xn + yn) /2;
       yn = sqrt(xn * yn);
@@ -142,7 +143,8 @@ namespace GeographicLib {
       mul = 1,
       mul3 = 1,
       s = 0;
-    while (Q >= mul * fabs(An)) {
+    // (the trip counter only matters for infinite / overflowing arguments, where the test never becomes false)
+    for (int trip = 0; trip < 64 && Q >= mul * fabs(An); ++trip) {
       // Max 7 trips
       real
         lam = sqrt(x0)*sqrt(y0) + sqrt(y0)*sqrt(z0) + sqrt(z0)*sqrt(x0),
@@ -192,7 +194,8 @@ namespace GeographicLib {
       z0 = z,
       mul = 1,
       s = 0;
-    while (Q >= mul * fabs(An)) {
+    // (the trip counter only matters for infinite / overflowing arguments, where the test never becomes false)
+    for (int trip = 0; trip < 64 && Q >= mul * fabs(An); ++trip) {
       // Max 7 trips
       real lam = sqrt(x0)*sqrt(y0) + sqrt(y0)*sqrt(z0) + sqrt(z0)*sqrt(x0);
       s += 1/(mul * sqrt(z0) * (z0 + lam));
